@@ -68,8 +68,13 @@ impl From<&HMap> for Vec<u8> {
 // compare HMap objects without considering the order of key-value pairs
 impl PartialEq for HMap {
     fn eq(&self, other: &Self) -> bool {
-        let self_pairs = self.pairs.borrow();
-        let other_pairs = other.pairs.borrow();
+        // A map that is (part of) a key of itself gets compared while it is
+        // being modified. Its pairs cannot be looked at then, but it is
+        // still equal to itself and to no other map
+        let (self_pairs, other_pairs) = match (self.pairs.try_borrow(), other.pairs.try_borrow()) {
+            (Ok(a), Ok(b)) => (a, b),
+            _ => return std::ptr::eq(self, other),
+        };
 
         if self_pairs.len() != other_pairs.len() {
             return false;
